@@ -41,6 +41,20 @@ Event functions report a root within ``fpe_equals()`` (1e-15) of their time; bel
 """
 
 
+class ActiveThrusts(dict):
+    """Thrust functions of the finite burns that are thrusting, keyed by their event: the acceleration is their sum."""
+
+    def __call__(self, state: ndarray) -> ndarray:
+        """Return the sum of the active thrust accelerations at `state`."""
+        return sum(thrust(state) for thrust in self.values())
+
+    def switch(self, event: ScheduledFiniteThrust, thrust: Callable | None) -> None:
+        """Switch the thrust of `event` on (`thrust` is its function) or off (``None``)."""
+        self.pop(id(event), None)
+        if thrust is not None:
+            self[id(event)] = thrust
+
+
 class EarthCollisionError(Exception):
     """Exception raised if a :class:`.Celestial` object crashes into the Earth."""
 
@@ -74,7 +88,7 @@ class Celestial(Dynamics, metaclass=ABCMeta):
             method (``str``, optional): Which ODE integration method to use.
         """
         self._method = method
-        self.finite_thrust = None
+        self.finite_thrust = ActiveThrusts()
 
     def _prepEvents(
         self,
@@ -96,7 +110,7 @@ class Celestial(Dynamics, metaclass=ABCMeta):
             ``list``: event functions that are ``Callable`` objects of the form :math:`g(t, y) = 0`.
         """
         events = []
-        self.finite_thrust = None
+        self.finite_thrust = ActiveThrusts()
         if station_keeping:
             events.extend(station_keeping)
         if scheduled_events:
@@ -115,7 +129,7 @@ class Celestial(Dynamics, metaclass=ABCMeta):
                     isinstance(event, ScheduledFiniteThrust)
                     and event.start_time < initial_time < event.end_time
                 ):
-                    self.finite_thrust = event.getStateChangeCallback(initial_time)
+                    self.finite_thrust.switch(event, event.getStateChangeCallback(initial_time))
 
         return events
 
@@ -179,8 +193,9 @@ class Celestial(Dynamics, metaclass=ABCMeta):
             if t_events[event_index].size > 0:
                 current_time = t_events[event_index][-1]
                 if isinstance(event, FiniteThrustEnd):
-                    self.finite_thrust = event.thrust_event.getStateChangeCallback(
-                        event.thrust_event.end_time,
+                    self.finite_thrust.switch(
+                        event.thrust_event,
+                        event.thrust_event.getStateChangeCallback(event.thrust_event.end_time),
                     )
                 elif isinstance(event, ScheduledFiniteThrust):
                     starting.append((event, current_time))
@@ -191,7 +206,7 @@ class Celestial(Dynamics, metaclass=ABCMeta):
                     ]
 
         for event, current_time in starting:
-            self.finite_thrust = event.getStateChangeCallback(current_time)
+            self.finite_thrust.switch(event, event.getStateChangeCallback(current_time))
 
         # A scheduled impulse fires once: drop it so that the restarted integration, which begins
         # within rounding error of the impulse time, cannot detect (and apply) it again.
